@@ -15,6 +15,8 @@ def site_key(o, fn, vl=None):
     if k == "err":
         inner = o["inner"]
         if inner[0] == "aggr":
+            if inner[2] == "DuplicateMapKey":
+                return "err:DuplicateMapKey"   # contains()+insert() and `!insert()` are the same rule (C12 checks the gate)
             return "err:%s%s" % (inner[2], guard_summary(o))
         return "err:<%s>" % show(inner)[:40]
     if k == "call":
